@@ -309,6 +309,19 @@ def rule_ESC(ctx):
                         if owner is None or f.node.lineno > owner.node.lineno:
                             owner = f
                 ok = False
+                if owner is None and evaluated and mod == 'bitstring_options':
+                    # a table of codes in the body of class Colour that nothing but Colour.__new__ reads
+                    cdef = m.classes.get('Colour')
+                    if cdef is not None and cdef.node.lineno <= x.lineno <= (cdef.node.end_lineno or 10 ** 9):
+                        holders = [t.id for st in cdef.node.body if isinstance(st, (ast.Assign, ast.AnnAssign)) and any(x is y for y in ast.walk(st))
+                                   for t in (st.targets if isinstance(st, ast.Assign) else [st.target]) if isinstance(t, ast.Name)]
+                        elsewhere = False
+                        for g in m.funcs.values():
+                            if g.key == 'bitstring_options:Colour.__new__':
+                                continue
+                            if any((isinstance(y, ast.Attribute) and y.attr in holders) or (isinstance(y, ast.Name) and y.id in holders) for y in ast.walk(g.node)):
+                                elsewhere = True
+                        ok = bool(holders) and not elsewhere
                 if owner is not None and owner.key == 'bitstring_options:Colour.__new__':
                     if evaluated:
                         ok = True          # judged below by what the attributes hold with colour off
